@@ -21,7 +21,19 @@ def _init(path):
     _F = factsmod.Facts(path)
 
 
+class IsaRunError(Exception):
+    pass
+
+
 def _work(chunk):
+    try:
+        return _work1(chunk)
+    except Exception:
+        import traceback
+        return {"chunk": chunk, "error": traceback.format_exc()[-1500:]}
+
+
+def _work1(chunk):
     t0 = time.time()
     bv.reset()
     from interp import Interp
@@ -69,8 +81,18 @@ def run(facts_path, workers=None):
     for i in range(0, len(rest), n):
         chunks.append(rest[i:i + n])
     t0 = time.time()
+    budget = float(os.environ.get("H8_ISA_BUDGET", "2400"))
     with mp.Pool(workers, initializer=_init, initargs=(facts_path,)) as pool:
-        res = pool.map(_work, chunks, chunksize=1)
+        fut = pool.map_async(_work, chunks, chunksize=1)
+        try:
+            res = fut.get(timeout=budget)
+        except mp.TimeoutError:
+            pool.terminate()
+            raise IsaRunError("instruction-level analysis exceeded its time budget of %.0f s (H8_ISA_BUDGET); no verdict" % budget)
+    bad = [r for r in res if "error" in r]
+    if bad:
+        raise IsaRunError("instruction-level analysis failed on first byte(s) %s:\n%s" % (
+            ", ".join("0x%02x" % r["chunk"][0] for r in bad), bad[0]["error"]))
     agg = {"findings": {}, "ob": {}, "obligations": 0, "discharged": 0, "traces": 0, "trace_kinds": {}, "forms": {}, "complete": True,
            "unimpl_checked": 0, "undecided": 0, "unknown_callees": {}, "nodes": 0, "stmts": 0, "chunks": len(chunks)}
     for r in res:
